@@ -7,7 +7,11 @@ number of factors / blocks / trailing axes and arbitrary (rectangular) extents; 
 induction over the factor list (`loopF_spec`, `foldr_agree`), never by enumeration.
 -/
 import Pyiga.Proofs.Tprod
+import Pyiga.Proofs.KronDense
 import Pyiga.Proofs.Operators
+import Pyiga.Proofs.Blocks
+import Pyiga.Proofs.CsrSubspace
+import Pyiga.Proofs.Linops
 import Pyiga.Proofs.FastDiag
 
 namespace Pyiga.Props.C16
@@ -44,12 +48,13 @@ example : ColsOk (α := Int)
 /-- **Corollary (Kronecker form).**  Without trailing axes the result, read in C order, is
 `(ops₀ ⊗ … ⊗ ops_{n-1}) · vec(A)`: entry `I` is `Σ_{J < ∏cols} K[I,J] · vec(A)[J]` with
 `K[I,J] = ∏_k ops_k[unravel(I)_k, unravel(J)_k]` — exactly `numpy.kron` of the factors. -/
-def apply_tprod_kron_vec_full : Prop :=
-  ∀ (ops : List (Option (Op α))) (A : Tensor α) (cols : List Nat), A.shape = cols → ColsOk ops cols →
+theorem apply_tprod_kron_vec (ops : List (Option (Op α))) (A : Tensor α) (cols : List Nat)
+    (hs : A.shape = cols) (hc : ColsOk ops cols) :
     ∃ T, applyTprod ops A = .ok T ∧ T.shape = rowsOf ops cols ∧
       ∀ I, I < prod (rowsOf ops cols) →
         T.data.getD I 0 = ∑ J ∈ Finset.range (prod cols),
-          kronEntry (ops.map entOf) (fromSeq I (rowsOf ops cols)) (fromSeq J cols) * A.data.getD J 0
+          kronEntry (ops.map entOf) (fromSeq I (rowsOf ops cols)) (fromSeq J cols) * A.data.getD J 0 :=
+  applyTprod_kron_vec ops A cols hs hc
 
 /-- **`_modek_tensordot_sparse` = `tensordot`.**  The sparse/LinearOperator path (roll axis `k` to the
 front, matricize, `B.dot`, reshape back) and `np.tensordot(B, X, axes=([1],[k]))` produce the same
@@ -71,14 +76,14 @@ theorem modek_sparse_eq_tensordot (B : Op α) (X : Tensor α) (k : Nat)
 `(N,m)` (`N = ∏ cols`), `_apply_kronecker_dense` succeeds with shape `(M,) ++ x.shape[1:]`
 (`M = ∏ rows`) and `y[I(,k)] = Σ_J (⊗ops)[I,J] · x[J(,k)]`; the `(N,1)` input takes the vector path
 (no trailing axis in `shape_in`) and still yields `(M,1)`. -/
-def kron_dense_spec_full : Prop :=
-  ∀ (ops : List (Op α)) (x : Tensor α) (tl : List Nat),
-    x.shape = prod (ops.map (·.n)) :: tl → (tl = [] ∨ ∃ m, tl = [m] ∧ 0 < m) →
+theorem kron_dense_spec (ops : List (Op α)) (x : Tensor α) (tl : List Nat)
+    (hx : x.shape = prod (ops.map (·.n)) :: tl) (htl : tl = [] ∨ ∃ m, tl = [m] ∧ 0 < m) :
     ∃ T, applyKroneckerDense ops x = .ok T ∧ T.shape = prod (ops.map (·.m)) :: tl ∧
       ∀ i k, Below i (ops.map (·.m)) → Below k tl →
         T.get (toSeq i (ops.map (·.m)) :: k)
           = boxSum (ops.map (·.n)) (fun j =>
-              kronEntry (ops.map (·.ent)) i j * x.get (toSeq j (ops.map (·.n)) :: k))
+              kronEntry (ops.map (·.ent)) i j * x.get (toSeq j (ops.map (·.n)) :: k)) :=
+  applyKroneckerDense_spec ops x tl hx htl
 
 /-! ## Kronecker algebra: mixed product and inverse -/
 
@@ -121,10 +126,10 @@ theorem sizes_to_ranges_spec (sizes : List Nat) :
 `BaseBlockOperator._matvec` (hence `BlockOperator` / `BlockDiagonalOperator`, whose ranges come from
 `_sizes_to_ranges` and whose `None`/`NullOperator` entries are skipped, i.e. contribute zero blocks)
 computes `y[r] = Σ_c D[r,c]·x[c]` with `D = blockDense`, the sum of the blocks placed at their ranges. -/
-def block_spec_full : Prop :=
-  ∀ (B : BaseBlock α) (x : Tensor α), x.shape = [B.N] → B.WellFormed →
+theorem block_spec (B : BaseBlock α) (x : Tensor α) (hx : x.shape = [B.N]) (hw : B.WellFormed) :
     ∃ y, blockAccum B x (Tensor.ofFn [B.M] (fun _ => 0)) = .ok y ∧ y.shape = [B.M] ∧
-      ∀ r, r < B.M → y.get [r] = sumRange B.N (fun c => B.blockDense r c * x.get [c])
+      ∀ r, r < B.M → y.get [r] = sumRange B.N (fun c => B.blockDense r c * x.get [c]) :=
+  blockAccum_spec B x hx hw
 
 /-- **Transpose**: swapping `ran_in`/`ran_out` and transposing every block transposes the block matrix. -/
 theorem block_transpose (B : BaseBlock α) (r c : Nat) : B.T.blockDense r c = B.blockDense c r :=
@@ -163,6 +168,21 @@ theorem fastdiag_2d (K1 M1 U1 L1 : Matrix n n K) (K2 M2 U2 L2 : Matrix m m K) (D
     ((U1 ⊗ₖ U2) * Dinv * (U1 ⊗ₖ U2)ᵀ) * (K1 ⊗ₖ M2 + M1 ⊗ₖ K2) = 1 :=
   Pyiga.Ops.fastdiag_two K1 M1 U1 L1 K2 M2 U2 L2 Dinv h1 o1 h2 o2 hD
 
+/-- **fastdiag, d = 3**: `((U₁⊗U₂)⊗U₃) · Dinv · (…)ᵀ` inverts `K₁⊗M₂⊗M₃ + M₁⊗K₂⊗M₃ + M₁⊗M₂⊗K₃`, where
+`Dinv` inverts `Λ₁⊗1⊗1 + 1⊗Λ₂⊗1 + 1⊗1⊗Λ₃` (the code's `diag = Σ_d kron(1,…,λ_d,…,1)`). -/
+theorem fastdiag_3d {l : Type*} [Fintype l] [DecidableEq l]
+    (K1 M1 U1 L1 : Matrix n n K) (K2 M2 U2 L2 : Matrix m m K) (K3 M3 U3 L3 : Matrix l l K)
+    (Dinv : Matrix ((n × m) × l) ((n × m) × l) K)
+    (h1 : K1 * U1 = M1 * U1 * L1) (o1 : U1ᵀ * M1 * U1 = 1)
+    (h2 : K2 * U2 = M2 * U2 * L2) (o2 : U2ᵀ * M2 * U2 = 1)
+    (h3 : K3 * U3 = M3 * U3 * L3) (o3 : U3ᵀ * M3 * U3 = 1)
+    (hD : Dinv * ((L1 ⊗ₖ (1 : Matrix m m K)) ⊗ₖ (1 : Matrix l l K)
+                + ((1 : Matrix n n K) ⊗ₖ L2) ⊗ₖ (1 : Matrix l l K)
+                + ((1 : Matrix n n K) ⊗ₖ (1 : Matrix m m K)) ⊗ₖ L3) = 1) :
+    (((U1 ⊗ₖ U2) ⊗ₖ U3) * Dinv * ((U1 ⊗ₖ U2) ⊗ₖ U3)ᵀ)
+      * ((K1 ⊗ₖ M2) ⊗ₖ M3 + (M1 ⊗ₖ K2) ⊗ₖ M3 + (M1 ⊗ₖ M2) ⊗ₖ K3) = 1 :=
+  Pyiga.Ops.fastdiag_three K1 M1 U1 L1 K2 M2 U2 L2 K3 M3 U3 L3 Dinv h1 o1 h2 o2 h3 o3 hD
+
 /-- non-vacuity (d = 1, 1×1 matrices over ℤ): `K = 6, M = 1, U = 1, Λ = 6`… needs a field for `Λ⁻¹`;
 over ℤ take `K = M = U = Λ = Λ⁻¹ = 1`. -/
 example : (1 : Matrix (Fin 2) (Fin 2) Int) * 1 = 1 * 1 * 1 ∧ (1 : Matrix (Fin 2) (Fin 2) Int)ᵀ * 1 * 1 = 1 := by
@@ -170,33 +190,57 @@ example : (1 : Matrix (Fin 2) (Fin 2) Int) * 1 = 1 * 1 * 1 ∧ (1 : Matrix (Fin 
 
 end fastdiag
 
-/-! ## Statements tied by correspondence only (not proved here; kept visible) -/
+/-! ## `_apply_kronecker_linops`, SubspaceOperator, CSR row slices -/
 
-/-- `_apply_kronecker_linops` (column-major sweeps) equals the same Kronecker product for square
-factors.  The loop invariant is `loopF_spec` with `head = [k]` (the right-hand-side index) on the
-row-major view of the reversed digit order; the F-order flat bookkeeping that connects
-`linopsSweep` to `stepF` is not proved. -/
-def kron_linops_spec_full : Prop :=
-  ∀ (ops : List (Op α)) (x : Tensor α) (nrhs : Nat), ops.length ≥ 2 → (∀ B ∈ ops, B.m = B.n) →
-    x.shape = [prod (ops.map (·.n)), nrhs] →
+/-- **kron_linops_spec.**  The column-major sweep algorithm (`q0.reshape(order='F')`, `q1.resize`, per
+right-hand-side blocks, swap) equals the same Kronecker product: for ≥ 2 square factors and an `(N, n)`
+right-hand side, `y[I,k] = Σ_J (⊗ops)[I,J] · x[J,k]`.  (One factor: the code returns `ops[0].dot(x)`.)
+The loop invariant is `loopF_spec` with the right-hand-side index as untouched head axis. -/
+theorem kron_linops_spec (ops : List (Op α)) (x : Tensor α) (nrhs : Nat)
+    (hlen : 2 ≤ ops.length) (hsq : ∀ B ∈ ops, B.m = B.n)
+    (hx : x.shape = [prod (ops.map (·.n)), nrhs]) :
     ∃ T, applyKroneckerLinops ops x = .ok T ∧ T.shape = x.shape ∧
-      ∀ i k, Below i (ops.map (·.m)) → k < nrhs →
-        T.get [toSeq i (ops.map (·.m)), k]
-          = boxSum (ops.map (·.n)) (fun j => kronEntry (ops.map (·.ent)) i j * x.get [toSeq j (ops.map (·.n)), k])
+      ∀ i k, Below i (ops.map (·.n)) → k < nrhs →
+        T.get [toSeq i (ops.map (·.n)), k]
+          = boxSum (ops.map (·.n)) (fun j => kronEntry (ops.map (·.ent)) i j * x.get [toSeq j (ops.map (·.n)), k]) :=
+  applyKroneckerLinops_spec ops x nrhs hlen hsq hx
 
-/-- `SubspaceOperator`: `Σ_j P_j B_j P_jᵀ x` (transposed: `B_jᵀ`). -/
-def subspace_spec_full : Prop :=
-  ∀ (Ps Bs : List (Op α)) (isT : Bool) (x : Tensor α) (n : Nat), Ps.length = Bs.length → Ps ≠ [] →
-    (∀ p ∈ Ps.zip Bs, p.1.m = n ∧ p.2.m = p.1.n ∧ p.2.n = p.1.n) → x.shape = [n] →
+/-- non-vacuity: two square factors of different sizes -/
+example : ∀ B ∈ [(⟨.linop, 2, 2, fun i j => (i + j : Int)⟩ : Op Int), ⟨.csr, 3, 3, fun i _ => (i : Int)⟩], B.m = B.n := by
+  intro B hB
+  simp only [List.mem_cons, List.not_mem_nil, or_false] at hB
+  rcases hB with rfl | rfl <;> rfl
+
+/-- **subspace_spec.**  `SubspaceOperator._matvec` computes `Σ_j P_j (B_j (P_jᵀ x))`
+(with `B_jᵀ` when `_is_transpose`), for any family of prolongations `P_j : n × n_j`, `B_j : n_j × n_j`. -/
+theorem subspace_spec (Ps Bs : List (Op α)) (isT : Bool) (x : Tensor α) (n : Nat)
+    (hok : ∀ p ∈ Ps.zip Bs, SubOk n p) (hx : x.shape = [n]) :
     ∃ y, subspaceMatvec Ps Bs isT x = .ok y ∧ y.shape = [n] ∧
-      ∀ r, r < n → y.get [r] = ((Ps.zip Bs).map (fun p =>
-        sumRange p.1.n (fun a => p.1.ent r a * sumRange p.1.n (fun b =>
-          (if isT then p.2.ent b a else p.2.ent a b) * sumRange n (fun c => p.1.ent c b * x.get [c]))))).foldl (· + ·) 0
+      ∀ r, r < n → y.get [r] = ((Ps.zip Bs).map (fun p => subspaceTerm p.1 p.2 isT n x r)).sum :=
+  subspaceMatvec_spec Ps Bs isT x n hok hx
 
-/-- `CSRRowSlice(A,(a,b)).dot(x)` = rows `[a,b)` of `A` times `x`. -/
-def csr_row_slice_full : Prop :=
-  ∀ (A : CSR α) (a b : Nat) (x : Tensor α), a ≤ b → b ≤ A.nrows → x.shape = [A.ncols] →
+/-- **csr_row_slice.**  `CSRRowSlice(A,(a,b)).dot(x)` equals rows `[a,b)` of the dense matrix the CSR
+arrays denote (duplicates summed) times `x`, for a vector … -/
+theorem csr_row_slice (A : CSR α) (a b : Nat) (x : Tensor α) (hab : a ≤ b) (hb : b ≤ A.nrows)
+    (hx : x.shape = [A.ncols]) (hr : ∀ i, i < b - a → RowInRange A (a + i)) :
     ∃ y, csrRowSlice A a b x = .ok y ∧ y.shape = [b - a] ∧
-      ∀ i, i < b - a → y.get [i] = csrRowDot A (a + i) (fun j => x.get [j])
+      ∀ i, i < b - a → y.get [i] = sumRange A.ncols (fun c => csrDense A (a + i) c * x.get [c]) :=
+  csrRowSlice_spec A a b x hab hb hx hr
+
+/-- … and for several columns. -/
+theorem csr_row_slice_mat (A : CSR α) (a b K : Nat) (x : Tensor α) (hab : a ≤ b) (hb : b ≤ A.nrows)
+    (hx : x.shape = [A.ncols, K]) (hr : ∀ i, i < b - a → RowInRange A (a + i)) :
+    ∃ y, csrRowSlice A a b x = .ok y ∧ y.shape = [b - a, K] ∧
+      ∀ i k, i < b - a → k < K →
+        y.get [i, k] = sumRange A.ncols (fun c => csrDense A (a + i) c * x.get [c, k]) :=
+  csrRowSlice_spec_mat A a b K x hab hb hx hr
+
+/-- `CSRRowSubset(A, rows).dot(x)`: the listed rows (any order, repetitions allowed) times `x`. -/
+theorem csr_row_subset (A : CSR α) (rows : List Nat) (x : Tensor α) (hx : x.shape = [A.ncols])
+    (hr : ∀ r ∈ rows, RowInRange A r) :
+    ∃ y, csrRowSubset A rows x = .ok y ∧ y.shape = [rows.length] ∧
+      ∀ i, (hi : i < rows.length) →
+        y.get [i] = sumRange A.ncols (fun c => csrDense A rows[i] c * x.get [c]) :=
+  csrRowSubset_spec A rows x hx hr
 
 end Pyiga.Props.C16
